@@ -1,5 +1,6 @@
 /-
 C02 — line-protocol driver of the layout model (core only).
+  fixed 0|1                              → ok            (model the pinned / the repaired WAL counter)
   open <i>                               → ok            (new shard; N from the next line)
   parts <n>                              → ok
   write s:t:f=v,f=v;…                    → ack
@@ -28,7 +29,8 @@ def showRows (rs : List (Nat × Int × List (Option String))) : String :=
 
 def step (st : St) (line : String) : St × String :=
   match (line.trimAscii.toString.splitOn " ").filter (· ≠ "") with
-  | ["open", _] => (St.init 1, "ok")
+  | ["open", _] => (St.init 1 st.fixed, "ok")
+  | ["fixed", b] => ({ st with fixed := b == "1" }, "ok")
   | ["parts", n] =>
     match n.toNat? with
     | some k => if k = 0 then (st, "bad-op") else ({ st with nParts := k }, "ok")
